@@ -189,3 +189,26 @@ Theorem C05_source_loops_all_builds : forall k p om padW padW' x0, (3 <= k <= 30
      GenLoop.gen_ntt_avx2_u64 (Z.of_nat (2 ^ k)) x0 0 W 0 (W' 64) 0 p = out 64).
 Proof. exact GenLoopSimd.source_loops_all_builds. Qed.
 Print Assumptions C05_source_loops_all_builds.
+
+(* THE SAME, AT THE PLACE WHERE THE LIBRARY RUNS core::ntt: the coefficients are a slice of a larger array (row cm of _data: px before, sx
+   after), the twiddle table a slice of T at |pw| and its Shoup companion a slice of T' at |pw'| -- T and T' may be one array (omegas[cm]
+   and omegas[cm] + degree) --, the three prefixes multiples of 16 elements (the register alignment of the vector loops; not needed by the
+   serial loops).  Every access stays inside the slices, px / sx are untouched, the returned pointers are the shifted ones.  From Rebase.v
+   (a successful run of every shape of the translated loops can be rebased) and the register lengths of the four translated vector butterflies. *)
+From NTT Require RebaseAll.
+Theorem C05_source_loops_anywhere : forall k p om padW padW' x0 px sx pw sw pw' sw' T, (3 <= k <= 30)%nat -> 1 < p -> List.Forall (fun v => 0 <= v < p) padW -> length x0 = (2 ^ k)%nat ->
+  Z.of_nat (length px) mod 16 = 0 -> Z.of_nat (length pw) mod 16 = 0 -> Z.of_nat (length pw') mod 16 = 0 ->
+  let W := (FlatTable.flat p k om ++ padW)%list in let W' := fun w => (List.map (fun v => (v * 2 ^ w) / p) (FlatTable.flat p k om) ++ padW')%list in
+  let tws := fun lvl => List.nth lvl (Tables.prep p k om) nil in
+  T = (pw ++ W ++ sw)%list ->
+  let Lx := Z.of_nat (length px) in let Lw := Z.of_nat (length pw) in let Lw' := Z.of_nat (length pw') in
+  let out w := Some (((px ++ Structural.ntt_core w p k tws x0 ++ sx)%list, Lx + Z.of_nat (2 ^ k), Lw + Z.of_nat (FlatTable.off k (k - 2)), Lw' + Z.of_nat (FlatTable.off k (k - 2))), true) in
+  let X := (px ++ x0 ++ sx)%list in
+  (p < 2 ^ 14 -> List.Forall (fun v => 0 <= v < 2 ^ 16) padW' -> List.Forall (fun v => 0 <= v < 2 ^ 16) x0 -> forall T', T' = (pw' ++ W' 16 ++ sw')%list ->
+     GenLoop.gen_ntt_serial_u16 (Z.of_nat (2 ^ k)) X Lx T Lw T' Lw' p = out 16 /\ GenLoop.gen_ntt_sse_u16 (Z.of_nat (2 ^ k)) X Lx T Lw T' Lw' p = out 16 /\ GenLoop.gen_ntt_avx2_u16 (Z.of_nat (2 ^ k)) X Lx T Lw T' Lw' p = out 16) /\
+  (4 * p <= 2 ^ 32 -> List.Forall (fun v => 0 <= v < 2 ^ 32) padW' -> List.Forall (fun v => 0 <= v < 2 ^ 32) x0 -> forall T', T' = (pw' ++ W' 32 ++ sw')%list ->
+     GenLoop.gen_ntt_serial_u32 (Z.of_nat (2 ^ k)) X Lx T Lw T' Lw' p = out 32 /\ GenLoop.gen_ntt_sse_u32 (Z.of_nat (2 ^ k)) X Lx T Lw T' Lw' p = out 32 /\ GenLoop.gen_ntt_avx2_u32 (Z.of_nat (2 ^ k)) X Lx T Lw T' Lw' p = out 32) /\
+  (4 * p <= 2 ^ 64 -> List.Forall (fun v => 0 <= v < 2 ^ 64) padW' -> List.Forall (fun v => 0 <= v < 2 ^ 64) x0 -> forall T', T' = (pw' ++ W' 64 ++ sw')%list ->
+     GenLoop.gen_ntt_serial_u64 (Z.of_nat (2 ^ k)) X Lx T Lw T' Lw' p = out 64 /\ GenLoop.gen_ntt_sse_u64 (Z.of_nat (2 ^ k)) X Lx T Lw T' Lw' p = out 64 /\ GenLoop.gen_ntt_avx2_u64 (Z.of_nat (2 ^ k)) X Lx T Lw T' Lw' p = out 64).
+Proof. exact RebaseAll.source_loops_anywhere. Qed.
+Print Assumptions C05_source_loops_anywhere.
